@@ -50,7 +50,9 @@ impl<D: Data> CKKSPlaintextVecZnx<D> {
     /// Normal CKKS operations update metadata themselves.
     pub fn set_meta_checked(&mut self, meta: CKKSMeta) -> Result<()> {
         anyhow::ensure!(
-            meta.effective_k() <= self.max_k().as_usize(),
+            meta.log_delta()
+                .checked_add(meta.log_budget())
+                .is_some_and(|k| k <= self.max_k().as_usize()),
             crate::CKKSCompositionError::LimbReallocationShrinksBelowMetadata {
                 max_k: self.max_k().as_usize(),
                 log_delta: meta.log_delta(),
